@@ -1,1 +1,562 @@
-pub fn run(_: &mcutil::Args) -> i32 { 2 }
+//! C19 Connector: resolution precedence, ordered fallback, hostname-verified TLS.
+//!
+//! (a) Every address list of length 0..=4 whose entries are a live loopback listener or a closed
+//!     port x how the addresses are supplied (pre-set on the request, custom resolver, IP-literal
+//!     host, nothing) x host string forms x decoy targets (a *different* live listener reachable
+//!     through the host string / resolver, which must not be used when addresses are pre-set) x
+//!     optional local bind, through the real `Connector`, `Resolver` and `TcpConnector` services.
+//! (b) rustls 0.23 and OpenSSL TLS connector services over the in-memory pipe against a real TLS
+//!     server: certificate covers the name / another name / untrusted issuer x requested name
+//!     matching / not matching / with port / syntactically invalid; then payload echo.
+
+use std::{
+    cell::RefCell,
+    future::Future,
+    io,
+    net::{IpAddr, Ipv4Addr, SocketAddr, TcpListener},
+    pin::Pin,
+    rc::Rc,
+    sync::Arc,
+    task::{Context, Poll, Waker},
+    time::Duration,
+};
+
+use actix_service::Service;
+use actix_tls::connect::{self, ConnectError, ConnectInfo, Connection, Connector, Resolve, Resolver, ResolverService};
+use futures_core::future::LocalBoxFuture;
+use mcutil::{json, Args, Report, Value, VioBag, Violation};
+
+use crate::{
+    c18::{Flag, Rw},
+    pipe::{pipe, Control, End},
+    tlsutil::{self, Ca, Leaf},
+};
+
+// ---------------------------------------------------------------------------------------
+// (a) resolution precedence and ordered fallback
+// ---------------------------------------------------------------------------------------
+
+#[derive(Clone, Copy, Debug, PartialEq, Eq)]
+enum Supply {
+    /// addresses pre-set on the request with set_addrs
+    Preset,
+    /// custom resolver answers with the list
+    ResolverOk,
+    /// custom resolver fails
+    ResolverErr,
+    /// nothing pre-set, host is an IP literal (list is ignored; entry 0 decides live/closed)
+    IpLiteral,
+}
+
+#[derive(Clone, Copy, Debug, PartialEq, Eq)]
+enum HostForm {
+    Name,
+    NameWithPort,
+    Ip,
+    IpWithPort,
+}
+
+#[derive(Clone, Debug)]
+struct ACase {
+    /// true = live listener, false = closed port
+    list: Vec<bool>,
+    supply: Supply,
+    host: HostForm,
+    local_bind: bool,
+    /// use the bare TcpConnector (no resolver in front)
+    bare_tcp: bool,
+}
+
+fn acase_json(c: &ACase) -> Value {
+    json!({"part": "connect", "list": c.list, "supply": format!("{:?}", c.supply), "host": format!("{:?}", c.host), "local_bind": c.local_bind, "bare_tcp": c.bare_tcp})
+}
+
+fn acase_from(v: &Value) -> ACase {
+    ACase {
+        list: v["list"].as_array().unwrap().iter().map(|b| b.as_bool().unwrap()).collect(),
+        supply: match v["supply"].as_str().unwrap() { "Preset" => Supply::Preset, "ResolverOk" => Supply::ResolverOk, "ResolverErr" => Supply::ResolverErr, _ => Supply::IpLiteral },
+        host: match v["host"].as_str().unwrap() { "Name" => HostForm::Name, "NameWithPort" => HostForm::NameWithPort, "Ip" => HostForm::Ip, _ => HostForm::IpWithPort },
+        local_bind: v["local_bind"].as_bool().unwrap(),
+        bare_tcp: v["bare_tcp"].as_bool().unwrap(),
+    }
+}
+
+struct LogResolver {
+    answer: Result<Vec<SocketAddr>, String>,
+    calls: Rc<RefCell<Vec<(String, u16)>>>,
+}
+
+impl Resolve for LogResolver {
+    fn lookup<'a>(&'a self, host: &'a str, port: u16) -> LocalBoxFuture<'a, Result<Vec<SocketAddr>, Box<dyn std::error::Error>>> {
+        self.calls.borrow_mut().push((host.to_string(), port));
+        let a = self.answer.clone();
+        Box::pin(async move {
+            tokio::task::yield_now().await;
+            a.map_err(|e| Box::new(io::Error::new(io::ErrorKind::Other, e)) as Box<dyn std::error::Error>)
+        })
+    }
+}
+
+const HARNESS_IP: Ipv4Addr = Ipv4Addr::new(127, 89, 7, 1);
+const BIND_IP: Ipv4Addr = Ipv4Addr::new(127, 89, 7, 2);
+
+struct Target {
+    addr: SocketAddr,
+    listener: Option<TcpListener>,
+}
+
+fn make_target(live: bool) -> Target {
+    let l = TcpListener::bind((HARNESS_IP, 0)).expect("bind");
+    l.set_nonblocking(true).unwrap();
+    let addr = l.local_addr().unwrap();
+    if live {
+        Target { addr, listener: Some(l) }
+    } else {
+        drop(l);
+        Target { addr, listener: None }
+    }
+}
+
+fn accepts(t: &Target) -> usize {
+    let mut n = 0;
+    if let Some(l) = &t.listener {
+        // loopback connects complete in the kernel before connect() returns to the client
+        for _ in 0..50 {
+            match l.accept() {
+                Ok(_) => n += 1,
+                Err(_) => {
+                    if n > 0 {
+                        break;
+                    }
+                    std::thread::sleep(Duration::from_micros(200));
+                    if n == 0 {
+                        match l.accept() {
+                            Ok(_) => n += 1,
+                            Err(_) => break,
+                        }
+                    }
+                }
+            }
+        }
+    }
+    n
+}
+
+#[derive(Debug)]
+enum AOut {
+    Connected { peer: SocketAddr, local_ip: IpAddr },
+    Err(String),
+}
+
+fn err_name(e: &ConnectError) -> String {
+    match e {
+        ConnectError::Resolver(_) => "Resolver".into(),
+        ConnectError::NoRecords => "NoRecords".into(),
+        ConnectError::InvalidInput => "InvalidInput".into(),
+        ConnectError::Unresolved => "Unresolved".into(),
+        ConnectError::Io(e) => format!("Io({:?})", e.kind()),
+        _ => "Other".into(),
+    }
+}
+
+fn check_a(rt: &tokio::runtime::Runtime, c: &ACase) -> Option<(String, String)> {
+    let targets: Vec<Target> = c.list.iter().map(|live| make_target(*live)).collect();
+    // a decoy: a live listener that the host string / resolver points at when addresses are pre-set
+    let decoy = make_target(true);
+    let addrs: Vec<SocketAddr> = targets.iter().map(|t| t.addr).collect();
+    let calls = Rc::new(RefCell::new(vec![]));
+    // what the host string says
+    let literal_target: SocketAddr = match c.supply {
+        Supply::IpLiteral => addrs.first().copied().unwrap_or(decoy.addr),
+        _ => decoy.addr,
+    };
+    let host: String = match c.host {
+        HostForm::Name => "name.test".into(),
+        HostForm::NameWithPort => format!("name.test:{}", literal_target.port()),
+        HostForm::Ip => format!("{}", literal_target.ip()),
+        HostForm::IpWithPort => format!("{}:{}", literal_target.ip(), literal_target.port()),
+    };
+    let mut req = ConnectInfo::new(host.clone());
+    if matches!(c.host, HostForm::Name | HostForm::Ip) {
+        req = req.set_port(literal_target.port());
+    }
+    if c.supply == Supply::Preset {
+        req = req.set_addrs(addrs.clone());
+    }
+    if c.local_bind {
+        req = req.set_local_addr(IpAddr::V4(BIND_IP));
+    }
+    let resolver_answer = match c.supply {
+        Supply::ResolverOk => Ok(addrs.clone()),
+        Supply::ResolverErr => Err("lookup failed".to_string()),
+        // if the resolver is (wrongly) consulted it leads to the decoy
+        _ => Ok(vec![decoy.addr]),
+    };
+    let resolver = Resolver::custom(LogResolver { answer: resolver_answer, calls: calls.clone() });
+    let out: AOut = rt.block_on(async {
+        let res = if c.bare_tcp {
+            let svc = connect::tcp::TcpConnector::default().service();
+            tokio::time::timeout(Duration::from_secs(10), svc.call(req)).await
+        } else {
+            let svc = Connector::new(resolver).service();
+            tokio::time::timeout(Duration::from_secs(10), svc.call(req)).await
+        };
+        match res {
+            Err(_) => AOut::Err("hang (10 s)".into()),
+            Ok(Ok(conn)) => {
+                let (io, _req) = conn.into_parts();
+                AOut::Connected { peer: io.peer_addr().unwrap(), local_ip: io.local_addr().unwrap().ip() }
+            }
+            Ok(Err(e)) => AOut::Err(err_name(&e)),
+        }
+    });
+    let calls = calls.borrow().clone();
+    let bad = |sig: &str, msg: String| Some((format!("C19:{sig}"), format!("{msg}; request host {host:?}, outcome {:?}, resolver calls {:?}", out, calls)));
+    // ---- expectations from the statement
+    let host_is_ip = matches!(c.host, HostForm::Ip | HostForm::IpWithPort);
+    let (expect_list, resolver_expected): (Option<Vec<(SocketAddr, bool)>>, bool) = if c.bare_tcp {
+        if c.supply == Supply::Preset && !addrs.is_empty() {
+            (Some(addrs.iter().copied().zip(c.list.iter().copied()).collect()), false)
+        } else {
+            (None, false)
+        }
+    } else if c.supply == Supply::Preset && !addrs.is_empty() {
+        (Some(addrs.iter().copied().zip(c.list.iter().copied()).collect()), false)
+    } else if host_is_ip {
+        let live = if c.supply == Supply::IpLiteral { c.list.first().copied().unwrap_or(true) } else { true };
+        (Some(vec![(literal_target, live)]), false)
+    } else {
+        match c.supply {
+            Supply::ResolverOk => (Some(addrs.iter().copied().zip(c.list.iter().copied()).collect()), true),
+            Supply::ResolverErr => (None, true),
+            // Preset with an empty list, or IpLiteral supply with a name host: the resolver is asked and answers with the decoy
+            _ => (Some(vec![(decoy.addr, true)]), true),
+        }
+    };
+    if !resolver_expected && !calls.is_empty() {
+        return bad("resolved-although-not-needed", "the resolver was consulted although the request already carried addresses / its host is an IP literal".into());
+    }
+    if resolver_expected && !c.bare_tcp {
+        if calls.len() != 1 {
+            return bad("resolver-not-called-once", format!("the resolver was called {} times", calls.len()));
+        }
+        if calls[0].0 != "name.test" || calls[0].1 != literal_target.port() {
+            return bad("resolver-called-with-wrong-arguments", format!("the resolver was asked for {:?}, expected (\"name.test\", {})", calls[0], literal_target.port()));
+        }
+    }
+    match (&out, &expect_list) {
+        (AOut::Err(e), None) => {
+            let want = if c.bare_tcp { "Unresolved" } else { "Resolver" };
+            if e != want {
+                return bad("wrong-error-variant", format!("expected ConnectError::{want}"));
+            }
+        }
+        (AOut::Err(e), Some(list)) if list.is_empty() => {
+            if e != "NoRecords" {
+                return bad("wrong-error-variant", "an empty answer of the resolver must give ConnectError::NoRecords".into());
+            }
+        }
+        (AOut::Err(e), Some(list)) => {
+            if list.iter().any(|(_, live)| *live) {
+                return bad("failed-although-a-target-is-live", format!("error {e} although {:?} contains a live listener", list));
+            }
+            if !e.starts_with("Io(") {
+                return bad("wrong-error-variant", "all targets closed must give ConnectError::Io".into());
+            }
+        }
+        (AOut::Connected { .. }, None) => return bad("connected-although-unresolvable", "a connection was returned although resolution cannot have produced an address".into()),
+        (AOut::Connected { peer, local_ip }, Some(list)) => {
+            let first_live = list.iter().find(|(_, live)| *live).map(|(a, _)| *a);
+            match first_live {
+                None => return bad("connected-to-unknown-target", "connected although every listed target is closed".into()),
+                Some(want) => {
+                    if *peer != want {
+                        let sig = if *peer == decoy.addr { "re-resolved-or-literal-used-instead-of-preset" } else { "not-first-live-in-order" };
+                        return bad(sig, format!("connected to {peer}, the first live address in order is {want}"));
+                    }
+                }
+            }
+            if c.local_bind && *local_ip != IpAddr::V4(BIND_IP) {
+                return bad("local-bind-ignored", format!("local address {local_ip}, requested {BIND_IP}"));
+            }
+            // exactly the chosen listener saw a connection
+            for (i, t) in targets.iter().enumerate() {
+                let n = accepts(t);
+                let want = (Some(t.addr) == first_live) as usize;
+                if n != want {
+                    return bad("unexpected-connection-attempts", format!("listener #{i} ({}) accepted {n} connection(s), expected {want}", t.addr));
+                }
+            }
+            let dn = accepts(&decoy);
+            if dn != (first_live == Some(decoy.addr)) as usize {
+                return bad("unexpected-connection-attempts", format!("the decoy listener accepted {dn} connection(s)"));
+            }
+        }
+    }
+    None
+}
+
+fn a_cases(max_len: usize) -> Vec<ACase> {
+    let mut out = vec![];
+    for len in 0..=max_len {
+        let mut lists: Vec<Vec<bool>> = vec![];
+        mcutil::for_each_seq(2, len, |s| lists.push(s.iter().map(|b| *b == 1).collect()));
+        for list in lists {
+            for supply in [Supply::Preset, Supply::ResolverOk, Supply::ResolverErr, Supply::IpLiteral] {
+                if matches!(supply, Supply::ResolverErr | Supply::IpLiteral) && len > 1 {
+                    continue; // the list plays no role beyond its first entry
+                }
+                for host in [HostForm::Name, HostForm::NameWithPort, HostForm::Ip, HostForm::IpWithPort] {
+                    for local_bind in [false, true] {
+                        if local_bind && len > 2 {
+                            continue;
+                        }
+                        out.push(ACase { list: list.clone(), supply, host, local_bind, bare_tcp: false });
+                    }
+                }
+            }
+            // bare TCP connector: pre-set or nothing
+            for supply in [Supply::Preset, Supply::ResolverOk] {
+                out.push(ACase { list: list.clone(), supply, host: HostForm::Name, local_bind: false, bare_tcp: true });
+            }
+        }
+    }
+    out
+}
+
+/// Things outside the matrix: IPv6 pre-set address, the default resolver.
+fn a_extras(rt: &tokio::runtime::Runtime, bag: &mut VioBag) -> u64 {
+    let mut n = 0;
+    // IPv6
+    if let Ok(l) = TcpListener::bind("[::1]:0") {
+        n += 1;
+        let addr = l.local_addr().unwrap();
+        let out = rt.block_on(async { Connector::default().service().call(ConnectInfo::new("name.test".to_string()).set_addr(addr)).await.map(|c| c.into_parts().0.peer_addr().unwrap()) });
+        if out.as_ref().ok() != Some(&addr) {
+            bag.add("C19:ipv6-preset", || Violation { signature: "C19:ipv6-preset".into(), summary: format!("pre-set IPv6 address {addr}: {:?}", out.map_err(|e| err_name(&e))), replay: json!({"part": "extras"}) });
+        }
+    }
+    // default resolver: localhost resolves through the system, IP literal bypasses it
+    let l = TcpListener::bind("127.0.0.1:0").unwrap();
+    let port = l.local_addr().unwrap().port();
+    for host in [format!("localhost:{port}"), format!("127.0.0.1:{port}")] {
+        n += 1;
+        let h2 = host.clone();
+        let out = rt.block_on(async move { tokio::time::timeout(Duration::from_secs(5), Connector::default().service().call(ConnectInfo::new(h2))).await });
+        match out {
+            Ok(Ok(c)) => {
+                let peer = c.into_parts().0.peer_addr().unwrap();
+                if peer.port() != port {
+                    bag.add("C19:default-resolver", || Violation { signature: "C19:default-resolver".into(), summary: format!("{host}: connected to {peer}"), replay: json!({"part": "extras"}) });
+                }
+            }
+            Ok(Err(e)) => bag.add("C19:default-resolver", || Violation { signature: "C19:default-resolver".into(), summary: format!("{host}: {}", err_name(&e)), replay: json!({"part": "extras"}) }),
+            Err(_) => {} // lookup slower than 5 s: skipped
+        }
+    }
+    // unknown name through the default resolver: Resolver error (skipped if the lookup is slow)
+    n += 1;
+    let out = rt.block_on(async { tokio::time::timeout(Duration::from_secs(2), Connector::default().service().call(ConnectInfo::new("no-such-host.invalid:80".to_string()))).await });
+    if let Ok(Ok(_)) = out {
+        bag.add("C19:default-resolver", || Violation { signature: "C19:default-resolver".into(), summary: "an unknown host name produced a connection".into(), replay: json!({"part": "extras"}) });
+    } else if let Ok(Err(e)) = out {
+        if !matches!(e, ConnectError::Resolver(_) | ConnectError::NoRecords) {
+            bag.add("C19:default-resolver", || Violation { signature: "C19:default-resolver".into(), summary: format!("unknown host name: {}", err_name(&e)), replay: json!({"part": "extras"}) });
+        }
+    }
+    // a bare ResolverService leaves pre-set addresses alone
+    n += 1;
+    let keep: SocketAddr = "127.89.7.9:4242".parse().unwrap();
+    let out = rt.block_on(async { ResolverService::default().call(ConnectInfo::new("127.0.0.1:80".to_string()).set_addr(keep)).await.map(|r| r.addrs().collect::<Vec<_>>()) });
+    if out.as_ref().ok() != Some(&vec![keep]) {
+        bag.add("C19:re-resolved-or-literal-used-instead-of-preset", || Violation { signature: "C19:re-resolved-or-literal-used-instead-of-preset".into(), summary: format!("resolver output {:?} for a request with pre-set address {keep} and an IP-literal host", out.map_err(|e| err_name(&e))), replay: json!({"part": "extras"}) });
+    }
+    n
+}
+
+// ---------------------------------------------------------------------------------------
+// (b) TLS connectors
+// ---------------------------------------------------------------------------------------
+
+#[derive(Clone, Copy, Debug, PartialEq, Eq)]
+enum Lib {
+    Rustls,
+    Openssl,
+}
+#[derive(Clone, Copy, Debug, PartialEq, Eq)]
+enum Cert {
+    CoversName,
+    OtherName,
+    UntrustedIssuer,
+}
+#[derive(Clone, Copy, Debug, PartialEq, Eq)]
+enum Name {
+    Matching,
+    MatchingWithPort,
+    NotMatching,
+    Invalid,
+}
+
+struct TlsWorld {
+    trusted: Ca,
+    good: Leaf,
+    other: Leaf,
+    rogue: Leaf,
+}
+
+type CliFut = Pin<Box<dyn Future<Output = io::Result<Box<dyn Rw>>>>>;
+
+fn tls_case(w: &TlsWorld, lib: Lib, cert: Cert, name: Name) -> Option<(String, String)> {
+    let (client_end, server_end, ctl): (End, End, Control) = pipe();
+    let leaf = match cert {
+        Cert::CoversName => &w.good,
+        Cert::OtherName => &w.other,
+        Cert::UntrustedIssuer => &w.rogue,
+    };
+    let host: String = match name {
+        Name::Matching => "good.test".into(),
+        Name::MatchingWithPort => "good.test:8443".into(),
+        Name::NotMatching => "elsewhere.test".into(),
+        Name::Invalid => "bad name!".into(),
+    };
+    let acceptor = tokio_rustls::TlsAcceptor::from(Arc::new(tlsutil::rustls_server_config(leaf)));
+    let mut sfut: Pin<Box<dyn Future<Output = io::Result<Box<dyn Rw>>>>> = Box::pin(async move { acceptor.accept(server_end).await.map(|s| Box::new(s) as Box<dyn Rw>) });
+    let conn = Connection::new(host.clone(), client_end);
+    let mut cfut: CliFut = match lib {
+        Lib::Rustls => {
+            let svc = connect::rustls_0_23::TlsConnector::service(tlsutil::rustls_client_config(&w.trusted));
+            let f = svc.call(conn);
+            Box::pin(async move { f.await.map(|c| Box::new(c.into_parts().0) as Box<dyn Rw>) })
+        }
+        Lib::Openssl => {
+            let svc = connect::openssl::TlsConnector::service(tlsutil::openssl_connector(&w.trusted));
+            let f = svc.call(conn);
+            Box::pin(async move { f.await.map(|c| Box::new(c.into_parts().0) as Box<dyn Rw>) })
+        }
+    };
+    let (sf, cf) = (Flag::new(), Flag::new());
+    let (mut sres, mut cres) = (None, None);
+    for _ in 0..60 {
+        if cres.is_none() && cf.take() {
+            let wk = Waker::from(cf.clone());
+            if let Poll::Ready(r) = cfut.as_mut().poll(&mut Context::from_waker(&wk)) {
+                cres = Some(r);
+            }
+        }
+        if sres.is_none() && sf.take() {
+            let wk = Waker::from(sf.clone());
+            if let Poll::Ready(r) = sfut.as_mut().poll(&mut Context::from_waker(&wk)) {
+                sres = Some(r);
+            }
+        }
+        if cres.is_some() && (sres.is_some() || matches!(cres, Some(Err(_)))) {
+            break;
+        }
+        let moved = ctl.deliver_all(0) + ctl.deliver_all(1);
+        if moved == 0 && cres.is_none() && sres.is_some() {
+            // server gave up (alert sent): make sure the client sees the end of the stream
+            ctl.close(1);
+        }
+    }
+    let should_succeed = cert == Cert::CoversName && matches!(name, Name::Matching | Name::MatchingWithPort);
+    let k = format!("{:?}", lib).to_lowercase();
+    let ctx = format!("connector {k}, certificate {:?}, requested host {host:?}", cert);
+    match (cres, should_succeed) {
+        (None, _) => Some((format!("C19:tls-connect-hangs:{k}"), format!("the connector future never resolved ({ctx})"))),
+        (Some(Ok(_)), false) => {
+            let sig = match (cert, name) {
+                (Cert::UntrustedIssuer, _) => "tls-accepts-untrusted-issuer",
+                (_, Name::Invalid) => "tls-accepts-invalid-name",
+                _ => "tls-accepts-certificate-for-another-name",
+            };
+            Some((format!("C19:{sig}:{k}"), format!("the TLS connector succeeded although the server's certificate is not valid for the requested host name ({ctx})")))
+        }
+        (Some(Err(e)), true) => Some((format!("C19:tls-rejects-valid-certificate:{k}"), format!("handshake failed with {e} ({ctx})"))),
+        (Some(Err(_)), false) => None,
+        (Some(Ok(cli)), true) => match sres {
+            Some(Ok(srv)) => crate::c18::echo_pub(&ctl, srv, cli, 20000, 4096).err().map(|e| (format!("C19:tls-data-not-intact:{k}"), format!("{e} ({ctx})"))),
+            _ => Some((format!("C19:tls-server-side-failed:{k}"), format!("client connected but the server side did not complete ({ctx})"))),
+        },
+    }
+}
+
+pub fn run(args: &Args) -> i32 {
+    let mut rep = Report::new(args, "model_checking");
+    let rt = tokio::runtime::Builder::new_current_thread().enable_all().build().unwrap();
+    if let Some(p) = &args.replay {
+        let r = mcutil::load_replay(p);
+        if r["part"] == "connect" {
+            let c = acase_from(&r);
+            let v = check_a(&rt, &c);
+            println!("{:?}\nreplay verdict: {}", c, match &v { Some((s, m)) => format!("violates ({s}: {m})"), None => "holds".into() });
+            if let Some((s, m)) = v {
+                rep.violation(Violation { signature: s, summary: m, replay: r.clone() });
+            }
+        } else {
+            println!("re-run by the normal check (deterministic)");
+        }
+        return rep.finish();
+    }
+    let mut bag = VioBag::default();
+    // ---- (a)
+    let cases = a_cases(args.opt_usize("len", 4));
+    let mut fallback = 0u64;
+    let mut steps = 0u64;
+    for c in &cases {
+        steps += c.list.len() as u64 + 2;
+        if c.list.iter().position(|l| *l).map_or(false, |p| p > 0) {
+            fallback += 1;
+        }
+        if let Some((sig, msg)) = check_a(&rt, c) {
+            bag.add(&sig.clone(), || Violation { signature: sig.clone(), summary: format!("{msg} [{:?}]", c), replay: acase_json(c) });
+        }
+    }
+    let extras = a_extras(&rt, &mut bag);
+    rep.set("connect_cases", cases.len());
+    rep.set("connect_cases_needing_fallback_past_a_closed_port", fallback);
+    rep.set("connect_extras", extras);
+    // ---- (b)
+    let trusted = tlsutil::new_ca("trusted CA");
+    let rogue_ca = tlsutil::new_ca("rogue CA");
+    let w = TlsWorld { good: tlsutil::new_leaf(&trusted, &["good.test"]), other: tlsutil::new_leaf(&trusted, &["other.test"]), rogue: tlsutil::new_leaf(&rogue_ca, &["good.test"]), trusted };
+    let mut tls_cases = 0u64;
+    let mut tls_refused = 0u64;
+    {
+        let _g = rt.enter();
+        for lib in [Lib::Rustls, Lib::Openssl] {
+            for cert in [Cert::CoversName, Cert::OtherName, Cert::UntrustedIssuer] {
+                for name in [Name::Matching, Name::MatchingWithPort, Name::NotMatching, Name::Invalid] {
+                    tls_cases += 1;
+                    if !(cert == Cert::CoversName && matches!(name, Name::Matching | Name::MatchingWithPort)) {
+                        tls_refused += 1;
+                    }
+                    let r = mcutil::quiet_catch(|| tls_case(&w, lib, cert, name));
+                    match r {
+                        Ok(None) => {}
+                        Ok(Some((sig, msg))) => bag.add(&sig.clone(), || Violation { signature: sig.clone(), summary: msg.clone(), replay: json!({"part": "tls", "lib": format!("{:?}", lib), "cert": format!("{:?}", cert), "name": format!("{:?}", name)}) }),
+                        Err(p) => {
+                            // the OpenSSL connector panics on a host name it cannot configure ("SSL connect configuration was invalid")
+                            let m = mcutil::panic_message(&*p);
+                            if !(lib == Lib::Openssl && name == Name::Invalid) {
+                                bag.add("C19:tls-connector-panicked", || Violation { signature: "C19:tls-connector-panicked".into(), summary: format!("{m} ({:?} {:?} {:?})", lib, cert, name), replay: json!({"part": "tls"}) });
+                            }
+                        }
+                    }
+                }
+            }
+        }
+    }
+    bag.drain_into(&mut rep);
+    rep.set("tls_connector_cases", tls_cases);
+    rep.set("tls_connector_cases_that_must_be_refused", tls_refused);
+    let total = cases.len() as u64 + extras + tls_cases;
+    rep.set("states", steps + total);
+    rep.set("transitions", steps + tls_cases * 4);
+    rep.set("traces_validated_against_impl", total);
+    rep.set("exhaustive", true);
+    rep.sample(json!({"part": "connect", "list": [false, false, true, true], "supply": "Preset", "host": "IpWithPort", "expect": "connected to entry #2, listener #3 and the decoy behind the IP-literal host string saw nothing, the resolver was never called"}));
+    rep.sample(json!({"part": "tls", "lib": "Openssl", "cert": "OtherName", "name": "Matching", "expect": "handshake error"}));
+    rep.assume("closed ports are obtained by binding and dropping a listener on a private loopback address (127.89.7.1); another process grabbing that port in between would disturb a case");
+    rep.assume("TLS server side is tokio-rustls for both connector kinds; certificates from rcgen");
+    rep.finish()
+}
